@@ -416,12 +416,19 @@ def sample_def32(rng, n=None):
         if rng.random() < 0.4:
             outs.append({"name": "p", "cls": "out", "type": rng.choice(["int", "str"]), "callable": "count_chars",
                          "help": rng.choice(HELPS)})
+        # an input and a plain (non-outarg) output may share a name: unstructure() must keep both
+        if rng.random() < 0.35:
+            outs.append({"name": rng.choice(spec["fields"])["name"], "cls": "out", "type": "int", "callable": "first_word"
+                         if rng.random() < 0.5 else "count_chars", "help": rng.choice(HELPS)})
         spec["outputs"] = outs
-        for o in outs:                         # file? outargs accept True/False/None
-            if o["cls"] == "outarg" and o["type"] == "file?":
-                pass
     else:
-        if rng.random() < 0.5:
+        r = rng.random()
+        if r < 0.35:
+            # a task that returns an updated version of one of its arguments: output named like an input
+            names = [rng.choice(spec["fields"])["name"]] + (["res"] if rng.random() < 0.5 else [])
+            rng.shuffle(names)
+            spec["outputs"] = [{"name": nm, "type": "str", "help": rng.choice(HELPS)} for nm in names]
+        elif r < 0.7:
             spec["outputs"] = [{"name": nm, "type": "str", "help": rng.choice(HELPS)}
                                for nm in rng.choice([["res"], ["res", "aux"]])]
     return spec
